@@ -842,7 +842,25 @@ func (x *Exec) eval(fr *frame, v ssa.Value) Val {
 		case *SliceV:
 			x.inBounds(idx, s.Len, false)
 			if idx.K == nil {
-				panic(unsupported{"symbolic slice index"})
+				// fork on the position (within the materialised cells; inBounds has put idx < len in the path)
+				n := 0
+				if s.B != nil {
+					n = len(s.B.Cells) - s.Off
+				}
+				if n > 16 {
+					panic(unsupported{"symbolic slice index over more than 16 materialised cells"})
+				}
+				found := false
+				for k := 0; k < n; k++ {
+					if x.decide(BinOp(token.EQL, idx, BVu(64, uint64(k)), false, false)) {
+						idx = BVu(64, uint64(k))
+						found = true
+						break
+					}
+				}
+				if !found {
+					panic(unsupported{"symbolic slice index beyond the materialised cells"})
+				}
 			}
 			if s.B == nil {
 				panic(goPanic{"index out of range (nil slice)"})
